@@ -566,6 +566,34 @@ def _aromatic_guard(bs, tests):
     if not tests:
         return "order 1.5 is assigned without a test on the endpoint atoms' aromaticity"
     from ..absint import MISSING
+    from .common import resolve_ast
+    import copy as _copy
+
+    def normalise(test, gid):
+        """a temporary holding the condition is followed to its definition; all(...) / any(...) over the two ends of the bond
+        is written out as a conjunction / disjunction"""
+        if isinstance(test, ast.Name):
+            test, gid = resolve_ast(fl, test, gid)
+        if isinstance(test, ast.Call) and isinstance(test.func, ast.Name) and test.func.id in ("all", "any") and len(test.args) == 1 and \
+                isinstance(test.args[0], (ast.GeneratorExp, ast.ListComp)) and len(test.args[0].generators) == 1 and \
+                not test.args[0].generators[0].ifs and isinstance(test.args[0].generators[0].target, ast.Name):
+            g = test.args[0].generators[0]
+            var = g.target.id
+            parts = []
+            for i in (0, 1):
+                class Sub(ast.NodeTransformer):
+                    def visit_Name(self, n):
+                        if n.id == var and isinstance(n.ctx, ast.Load):
+                            return ast.Subscript(value=_copy.deepcopy(g.iter), slice=ast.Constant(value=i), ctx=ast.Load())
+                        return n
+                parts.append(ast.fix_missing_locations(Sub().visit(_copy.deepcopy(test.args[0].elt))))
+            new = ast.BoolOp(op=ast.And() if test.func.id == "all" else ast.Or(), values=parts)
+            ast.copy_location(new, test)
+            ast.fix_missing_locations(new)
+            test = new
+        return test, gid
+    tests = [normalise(t, g) + (p,) for t, p, g in tests]
+    tests = [(t, p, g) for t, g, p in tests]
     # the conjunction of all tests (with polarity) decides
     gets = []   # (Call node, which endpoint index)
     for test, pol, gid in tests:
@@ -724,6 +752,12 @@ def prov_squash(repo, tier="quick"):
         e = _fold_sub(fl, edge_t, idx)
         if m_ and len(m_[2]) == 2 and m_[2][0] == e and m_[2][1] == e:
             return m_[0]
+        # D[e] if e in D else e   /   e if e not in D else D[e]
+        if x is not None and x[0] == "ifexp" and x[1][0] == "cmp" and x[1][1] in (("in",), ("not in",)) and x[1][2][0] == e:
+            D = x[1][2][1]
+            hit, miss = (x[2], x[3]) if x[1][1] == ("in",) else (x[3], x[2])
+            if hit == ("sub", D, e) and miss == e:
+                return D
         return None
     d0 = remapped(keep, 0) if keep else None
     d1 = remapped(rem, 1) if rem else None
